@@ -15,9 +15,11 @@ default_rng(None).  For every sampling entry point, traced with a *symbolic* int
 Pints priors are stubs that draw from the global generator (assumed contract of pints.LogPrior.sample).
 """
 import itertools
+import os
 import numpy as np
 import sympy as sp
 
+from pvc.harness import CheckerFault
 from pvc import sym, loader, ghost, pandas_shim
 from pvc.sym import S, explore, Unsupported
 from pvc.tensor import T
@@ -66,6 +68,17 @@ def provenance(result, expect_random=True, allow_shared=None):
             if a in seen and seen[a] != cell and not (allow_shared and allow_shared(seen[a], cell, a)):
                 return 'seed.independent', 'entries %s and %s share the random draw %s' % (seen[a], cell, a)
             seen.setdefault(a, cell)
+    # generators that are re-seeded with integers drawn from a finite range: two entries drawn from generators with *different* drawn seeds
+    # are not independent -- the two seeds coincide with probability 1 / range, and the entries are then identical
+    reseed = {}
+    for cell, ats in cells:
+        r_ = frozenset(x for a in ats for x in a.args[0].atoms(sp.Function) if isinstance(x, ghost.UI))
+        if r_:
+            reseed[cell] = r_
+    for c1, c2 in itertools.combinations(sorted(reseed), 2):
+        if reseed[c1] != reseed[c2] and not (allow_shared and allow_shared(c1, c2, sorted(reseed[c1], key=str)[0])):
+            u_ = sorted(reseed[c1] ^ reseed[c2], key=str)[0]
+            return 'seed.independent', 'entries %s and %s are drawn from generators that are re-seeded with different integers drawn from the range [%s, %s): the two generators coincide with positive probability, and the entries are then identical' % (c1, c2, u_.args[2], u_.args[3])
     if expect_random and n_random == 0:
         return 'seed.determines', 'no random atom in the result'
     if ghost.GLOBAL.rng.stream == ghost.GLOBAL0 and ghost.GLOBAL.rng.calls > 0:
@@ -221,6 +234,11 @@ def models(rec):
             smp = np.asarray(mk_().sample([0.5, 1.0, 0.0, 0.0], [[1.0]], n_samples=40, seed=9), dtype=float).flatten()
             if len(np.unique(np.round(smp, 10))) < 30:
                 return {'what': 'integer seed 9: only %d distinct values among the 40 sampled individuals of one subpopulation (the same draw is reused)' % len(np.unique(np.round(smp, 10))), 'expected': '40 independent draws', 'observed': smp[:6].tolist()}
+            # many individuals: independent continuous draws never coincide exactly (generators re-seeded per individual from a finite range do)
+            big = np.asarray(mk_().sample([0.5, 1.0, 0.0, 0.0], [[1.0]], n_samples=20000, seed=9), dtype=float).flatten()
+            ties = len(big) - len(np.unique(big))
+            if ties:
+                return {'what': 'integer seed 9: %d exactly equal pairs among 20000 sampled individuals of one subpopulation (independent Gaussian draws coincide with probability 0)' % ties, 'expected': '0 ties', 'observed': ties}
         return native_repeat(lambda sd: mk_().sample([0.5, 1.0, 0.1, 0.0], [[1.0], [2.0]], n_samples=2, seed=sd))
     run_entry(rec, 'CovariatePopulationModel', ['chi._population_models.CovariatePopulationModel.sample'], lambda sd: cpm.sample(cpar, cov, n_samples=2, seed=sd), nat_cov)
     # two truncated-Gaussian blocks in one composition share one generator: their draws must still be independent
@@ -645,4 +663,68 @@ def native_filter_initial():
     return None
 
 
-TASKS = [('models', models), ('predictive', predictive), ('pam', pam), ('averaged-predictive', averaged_predictive), ('initial', initial_parameters)]
+def session_main():
+    """executed in a fresh interpreter (see sessions): seeded results of the sampling entry points on the installed chi, printed as one digest line each"""
+    import hashlib
+    import chi as real
+    import pints
+    Toy = native_toy(2, 2)
+    out = {}
+    ems = [real.GaussianErrorModel(), real.LogNormalErrorModel()]
+    out['error models'] = [np.asarray(e.sample([0.3], np.array([1.0, 2.0]), n_samples=2, seed=5)).tolist() for e in ems]
+    pops = {'Gaussian': (real.GaussianModel(), [1.0, 0.5]), 'LogNormal(nc)': (real.LogNormalModel(centered=False), [0.1, 0.3]), 'Truncated': (real.TruncatedGaussianModel(), [1.0, 0.5]),
+            'Composed': (real.ComposedPopulationModel([real.PooledModel(), real.GaussianModel()]), [0.7, 1.0, 0.5])}
+    out['population models'] = {k: np.asarray(m.sample(th, n_samples=3, seed=5)).tolist() for k, (m, th) in pops.items()}
+    cpm = real.CovariatePopulationModel(real.GaussianModel(), real.LinearCovariateModel())
+    out['covariate model'] = np.asarray(cpm.sample([1.0, 0.5, 0.1, 0.0], [[1.0], [2.0]], n_samples=2, seed=5)).tolist()
+    pm = real.PredictiveModel(Toy(), [real.GaussianErrorModel(), real.GaussianErrorModel()])
+    out['predictive'] = np.asarray(pm.sample([0.3, 0.2, 0.5, 0.4], [1.0, 2.0], n_samples=2, seed=5, return_df=False)).tolist()
+    ppm = real.PopulationPredictiveModel(pm, real.ComposedPopulationModel([real.GaussianModel(), real.PooledModel(), real.PooledModel(), real.PooledModel()]))
+    out['population predictive'] = np.asarray(ppm.sample([0.3, 0.1, 0.2, 0.5, 0.4], [1.0, 2.0], n_samples=2, seed=5, return_df=False)).tolist()
+    for ident in (None, '7', 'patient 12'):
+        ll = real.LogLikelihood(Toy(), [real.GaussianErrorModel(), real.GaussianErrorModel()], [[1.0, 2.0], [1.5, 2.5]], [[1.0, 2.0], [1.0, 2.0]])
+        if ident is not None:
+            ll.set_id(ident)
+        post = real.LogPosterior(ll, pints.ComposedLogPrior(*[pints.LogNormalLogPrior(0.0, 0.5) for _ in range(4)]))
+        out['LogPosterior id=%r' % (ident,)] = np.asarray(post.sample_initial_parameters(n_samples=2, seed=5)).tolist()
+    lls = []
+    for ident in ('b', 'a'):
+        ll = real.LogLikelihood(Toy(), [real.GaussianErrorModel(), real.GaussianErrorModel()], [[1.0, 2.0], [1.5, 2.5]], [[1.0, 2.0], [1.0, 2.0]])
+        ll.set_id(ident)
+        lls.append(ll)
+    hll = real.HierarchicalLogLikelihood(lls, real.ComposedPopulationModel([real.GaussianModel(), real.PooledModel(), real.PooledModel(), real.PooledModel()]))
+    hp = real.HierarchicalLogPosterior(hll, pints.ComposedLogPrior(*[pints.LogNormalLogPrior(0.0, 0.5) for _ in range(5)]))
+    out['HierarchicalLogPosterior'] = np.asarray(hp.sample_initial_parameters(n_samples=2, seed=5)).tolist()
+    for k in sorted(out):
+        print('SESSION %s %s' % (hashlib.sha256(repr(out[k]).encode()).hexdigest()[:16], k))
+
+
+def sessions(rec):
+    """bounded run-time contract: the same integer seed gives the same results in every interpreter session (no dependence on the hash
+    randomisation of the session, the process id, object addresses or the clock)"""
+    import subprocess
+    import sys
+    root = os.path.dirname(os.path.dirname(os.path.abspath(__file__)))
+
+    def run(hashseed):
+        repo = os.environ.get('CHI_REPO')
+        code = 'import sys; sys.path[:0] = %r; import warnings; warnings.filterwarnings("ignore"); from contracts import c16; c16.session_main()' % ([root] + ([os.path.abspath(repo)] if repo else []),)
+        p_ = subprocess.run([sys.executable, '-c', code], capture_output=True, text=True, env=dict(os.environ, PYTHONHASHSEED=str(hashseed)), timeout=600)
+        lines = [l for l in p_.stdout.splitlines() if l.startswith('SESSION ')]
+        if p_.returncode != 0 or not lines:
+            raise CheckerFault('session subprocess failed: %s' % (p_.stderr[-600:],))
+        return {l.split(' ', 2)[2]: l.split(' ', 2)[1] for l in lines}
+
+    def one(pair):
+        a, b = run(pair[0]), run(pair[1])
+        bad = sorted(k for k in a if a[k] != b.get(k))
+        if bad:
+            return 'the seeded results of %s differ between two interpreter sessions (hash randomisation %s / %s) although the integer seed is the same' % (bad, pair[0], pair[1])
+        return None
+    rec.native_check('seed.determines[across interpreter sessions]', ['chi._log_pdfs.LogPosterior.sample_initial_parameters', 'chi._log_pdfs.HierarchicalLogPosterior.sample_initial_parameters',
+                                                                      'chi._predictive_models.PredictiveModel.sample', 'chi._predictive_models.PopulationPredictiveModel.sample',
+                                                                      'chi._population_models.*.sample', 'chi._error_models.*.sample'], [(1, 2), (3, 'random')], one,
+                     'two pairs of fresh interpreter sessions with different string-hash randomisation (PYTHONHASHSEED 1 / 2, 3 / random); 13 seeded entry points incl. posteriors with and without string IDs', exhaustive=False)
+
+
+TASKS = [('models', models), ('predictive', predictive), ('pam', pam), ('averaged-predictive', averaged_predictive), ('initial', initial_parameters), ('sessions', sessions)]
